@@ -139,7 +139,8 @@ class Gen:
         while True:
             vendor = r.choice([None, None, 10415, 13019, 0, 99999, 2 ** 32 - 1, r.randrange(1, 2 ** 32)])
             code = r.choice([r.randrange(1, 2 ** 32), r.randrange(1, 70000), 2 ** 32 - 1, r.randrange(60000, 65000)])
-            if (vendor, code) not in self.known_pairs and not (vendor is None and self._name_known(code)):
+            if (vendor, code) not in self.known_pairs and not (vendor is None and self._name_known(code)) \
+                    and not (vendor == 0 and (None, code) in self.known_pairs):
                 break
         flags = r.randrange(256)
         flags = (flags | 0x80) if vendor is not None else (flags & 0x7f)
@@ -197,7 +198,7 @@ class Gen:
             form = form or r.choice(["str", "bytes"])
             arg = lit if form == "str" else wire
         elif kind in ("OctetString",):
-            form = form or r.choice(["bytes", "bytes", "str"])
+            form = form or ("bytes" if name == "EapPayloadAVP" else r.choice(["bytes", "bytes", "str"]))
             if form == "bytes":
                 wire = self.octets(residue)
                 arg = wire
